@@ -27,8 +27,8 @@ func genLeaf(t *rapid.T) addrfmt.TapLeaf {
 		ver = rapid.SampledFrom([]byte{0xc2, 0xc4, 0x00, 0x02, 0x66, 0x7e, 0x80, 0xbe, 0xfe, 0x52, 0x4e}).Draw(t, "leaf-version")
 	}
 	n := rapid.OneOf(rapid.IntRange(0, 40), rapid.IntRange(0, 40), rapid.SampledFrom([]int{0, 1, 75, 76, 252, 253, 254, 255, 256, 520, 1000})).Draw(t, "script-len")
-	if rapid.IntRange(0, 199).Draw(t, "huge") == 0 {
-		n = rapid.SampledFrom([]int{65535, 65536, 70000}).Draw(t, "huge-len")
+	if rapid.IntRange(0, 999).Draw(t, "huge") == 0 {
+		n = rapid.SampledFrom([]int{65535, 65536}).Draw(t, "huge-len")
 	}
 	var script []byte
 	if n <= 80 {
@@ -88,7 +88,13 @@ func treeFromBtcd(n txscript.TapNode, depth int) (*addrfmt.TapTree, error) {
 	return &addrfmt.TapTree{L: l, R: r}, nil
 }
 
-func leafKey(l addrfmt.TapLeaf) string { return string([]byte{l.Version}) + string(l.Script) }
+// leafKey identifies a leaf by its reference leaf hash.
+func leafKey(l addrfmt.TapLeaf) string {
+	h := addrfmt.TapLeafHash(l.Version, l.Script)
+	return string(h[:])
+}
+
+func sameLeaf(a, b addrfmt.TapLeaf) bool { return a.Version == b.Version && bytes.Equal(a.Script, b.Script) }
 
 func concatPath(p [][32]byte) []byte {
 	var b []byte
@@ -101,7 +107,7 @@ func concatPath(p [][32]byte) []byte {
 // checkLeafProof verifies one leaf's btcd control block against the reference
 // and runs the negative cases. others = other leaves of the tree.
 func checkLeafProof(t *rapid.T, where string, internalKey *btcec.PublicKey, internalX []byte, root [32]byte, q32 []byte, parity byte,
-	leaf addrfmt.TapLeaf, path [][32]byte, cb txscript.ControlBlock, foreign *addrfmt.TapLeaf) {
+	leaf addrfmt.TapLeaf, path [][32]byte, cb txscript.ControlBlock, foreign *addrfmt.TapLeaf, full bool) {
 
 	// merkleOf folds a leaf and a path the BIP341 way (hashes only; the output
 	// key (q32, parity) of the true root was computed once by the caller)
@@ -127,6 +133,9 @@ func checkLeafProof(t *rapid.T, where string, internalKey *btcec.PublicKey, inte
 	}
 	if err := txscript.VerifyTaprootLeafCommitment(&cb, q32, leaf.Script); err != nil {
 		t.Fatalf("%s: VerifyTaprootLeafCommitment rejects the leaf's own control block: %v", where, err)
+	}
+	if !full {
+		return // the parse round trip and the negative cases run on a sample of the leaves of a tree
 	}
 	parsed, err := txscript.ParseControlBlock(wantCB)
 	if err != nil {
@@ -164,7 +173,7 @@ func checkLeafProof(t *rapid.T, where string, internalKey *btcec.PublicKey, inte
 		mutScript[i] ^= byte(1 << uint(rapid.IntRange(0, 7).Draw(t, "script-bit")))
 	}
 	neg("a foreign (mutated) leaf script", cb, mutScript)
-	if foreign != nil && leafKey(*foreign) != leafKey(leaf) {
+	if foreign != nil && !sameLeaf(*foreign, leaf) {
 		fc := cb
 		fc.LeafVersion = txscript.TapscriptLeafVersion(foreign.Version)
 		neg("another leaf's script with this leaf's path", fc, foreign.Script)
@@ -183,6 +192,16 @@ func checkLeafProof(t *rapid.T, where string, internalKey *btcec.PublicKey, inte
 	if !bytes.Equal(schnorr.SerializePubKey(otherKey.InternalKey), internalX) {
 		neg("another internal key", otherKey, leaf.Script)
 	}
+}
+
+// sampleLeaves marks three leaves of a tree for the full set of negative
+// cases (every leaf gets the positive comparison and verification).
+func sampleLeaves(t *rapid.T, n int) map[int]bool {
+	m := map[int]bool{}
+	for k := 0; k < 3 && n > 0; k++ {
+		m[rapid.IntRange(0, n-1).Draw(t, "sampled-leaf")] = true
+	}
+	return m
 }
 
 var otherKeys []*btcec.PublicKey
@@ -231,11 +250,11 @@ func checkOutputKey(t *rapid.T, where string, d *big.Int, internalKey *btcec.Pub
 }
 
 var recTapAsm = ev.New("C16", "taproot-assemble",
-	"1..16 leaves (every count equally likely; leaf version 0xc0 or another even value; script lengths incl. 0, 252/253, 65535/65536) given to "+
+	"1..16 leaves (distinct, one tree in 25 with a repeated leaf; leaf version 0xc0 or another even value; script lengths incl. 0, 252/253, 65535/65536) given to "+
 		"AssembleTaprootScriptTree, internal key with even or odd y; the tree shape is read back through TapNode.Left/Right and re-hashed by the BIP341 reference: "+
 		"same leaves, root hash, output key and parity (ComputeTaprootOutputKey, TweakTaprootPrivKey, ComputeTaprootKeyNoScript), for EVERY leaf i: "+
 		"LeafMerkleProofs[i] is leaf i with the reference merkle path, LeafProofIndex, ToControlBlock bytes = reference control block, "+
-		"VerifyTaprootLeafCommitment accepts it and refuses a flipped parity bit, wrong leaf version, mutated / other leaf's script, truncated or corrupted path, other internal key; "+
+		"VerifyTaprootLeafCommitment accepts it and (for all leaves of trees up to 3 leaves, 3 sampled leaves otherwise) refuses a flipped parity bit, wrong leaf version, mutated / other leaf's script, truncated or corrupted path, other internal key; "+
 		"non-trivial = >= 3 leaves; distinct by leaves + key",
 	"leaves:1", "leaves:2", "leaves:3", "leaves:4", "leaves:5", "leaves:6", "leaves:7", "leaves:8", "leaves:9", "leaves:10", "leaves:11", "leaves:12",
 	"leaves:13", "leaves:14", "leaves:15", "leaves:16", "parity:0", "parity:1", "internal-odd-y", "non-base-leaf-version")
@@ -246,16 +265,23 @@ func TestTaprootAssemble(t *testing.T) {
 		leaves := make([]addrfmt.TapLeaf, n)
 		bl := make([]txscript.TapLeaf, n)
 		seen := map[string]int{}
-		dup := false
 		var hb [][]byte
 		for i := range leaves {
 			leaves[i] = genLeaf(t)
-			if i > 0 && rapid.IntRange(0, 39).Draw(t, "duplicate") == 0 {
-				leaves[i] = leaves[rapid.IntRange(0, i-1).Draw(t, "dup-of")]
+			for j := 0; j < i; j++ { // distinct by construction
+				if sameLeaf(leaves[j], leaves[i]) {
+					leaves[i].Script = append(append([]byte{}, leaves[i].Script...), byte(i))
+					j = -1
+				}
 			}
-			if _, ok := seen[leafKey(leaves[i])]; ok {
-				dup = true
-			}
+		}
+		// one tree in 25 repeats a leaf (legal in BIP341, if pointless)
+		dup := n >= 2 && rapid.IntRange(0, 24).Draw(t, "with-duplicate") == 0
+		if dup {
+			j := rapid.IntRange(1, n-1).Draw(t, "dup-at")
+			leaves[j] = leaves[rapid.IntRange(0, j-1).Draw(t, "dup-of")]
+		}
+		for i := range leaves {
 			seen[leafKey(leaves[i])]++
 			bl[i] = btcdLeaf(leaves[i])
 			hb = append(hb, []byte{leaves[i].Version}, leaves[i].Script)
@@ -305,6 +331,7 @@ func TestTaprootAssemble(t *testing.T) {
 		if len(tree.LeafMerkleProofs) != n {
 			t.Fatalf("%s: %d proofs", where, len(tree.LeafMerkleProofs))
 		}
+		sample := sampleLeaves(t, n)
 		for i, leaf := range leaves {
 			w := fmt.Sprintf("%s, leaf %d", where, i)
 			proof := tree.LeafMerkleProofs[i]
@@ -319,7 +346,7 @@ func TestTaprootAssemble(t *testing.T) {
 			var path [][32]byte
 			found := false
 			for _, p := range paths {
-				if leafKey(p.Leaf) == leafKey(leaf) {
+				if sameLeaf(p.Leaf, leaf) {
 					if !found || bytes.Equal(concatPath(p.Path), proof.InclusionProof) {
 						path = p.Path
 					}
@@ -338,7 +365,7 @@ func TestTaprootAssemble(t *testing.T) {
 			if n > 1 {
 				foreign = &leaves[(i+1+rapid.IntRange(0, n-2).Draw(t, "foreign"))%n]
 			}
-			checkLeafProof(t, w, internalKey, internalX, root, q32, parity, leaf, path, cb, foreign)
+			checkLeafProof(t, w, internalKey, internalX, root, q32, parity, leaf, path, cb, foreign, n <= 3 || sample[i])
 		}
 	})
 }
@@ -447,7 +474,7 @@ func TestTaprootShapes(t *testing.T) {
 			if got := cb.RootHash(leaf.Script); !bytes.Equal(got, k[:]) {
 				t.Fatalf("%s: ControlBlock.RootHash = %x, reference %x", where, got, k)
 			}
-			checkLeafProof(t, where, internalKey, internalX, k, q32, parity, leaf, path, *cb, nil)
+			checkLeafProof(t, where, internalKey, internalX, k, q32, parity, leaf, path, *cb, nil, true)
 			return
 		}
 		n := rapid.IntRange(1, 16).Draw(t, "leaves")
@@ -478,6 +505,7 @@ func TestTaprootShapes(t *testing.T) {
 		}
 		q32, parity := checkOutputKey(t, where, d, internalKey, internalX, root[:])
 		paths := mt.Paths()
+		sample := sampleLeaves(t, n)
 		for i, p := range paths {
 			w := fmt.Sprintf("%s, leaf %d", where, i)
 			proof := txscript.TapscriptProof{TapLeaf: btcdLeaf(p.Leaf), RootNode: bt, InclusionProof: concatPath(p.Path)}
@@ -489,7 +517,7 @@ func TestTaprootShapes(t *testing.T) {
 			if n > 1 {
 				foreign = &paths[(i+1+rapid.IntRange(0, n-2).Draw(t, "foreign"))%n].Leaf
 			}
-			checkLeafProof(t, w, internalKey, internalX, root, q32, parity, p.Leaf, p.Path, cb, foreign)
+			checkLeafProof(t, w, internalKey, internalX, root, q32, parity, p.Leaf, p.Path, cb, foreign, n <= 3 || sample[i])
 		}
 	})
 }
